@@ -45,6 +45,7 @@
 package interp // import "golang.org/x/tools/go/ssa/interp"
 
 import (
+	"runtime/debug"
 	"strings"
 	"fmt"
 	"go/token"
@@ -62,6 +63,28 @@ var CallStack []*ssa.Function
 var Intercepts = map[string]*ssa.Function{}
 
 var maxCallDepth = 600
+
+// firstHostStack keeps the host stack of the first unexpected (engine) panic of a run.
+var firstHostStack string
+
+func noteHostPanic(r any) {
+	if firstHostStack != "" {
+		return
+	}
+	switch r.(type) {
+	case abortPath, assertFail, targetPanic, targetRuntimeError:
+		return
+	}
+	st := string(debug.Stack())
+	// drop the frames of the panic machinery itself
+	if i := strings.Index(st, "panic("); i >= 0 {
+		st = st[i:]
+	}
+	if len(st) > 3000 {
+		st = st[:3000]
+	}
+	firstHostStack = st
+}
 
 var stdSizes = &types.StdSizes{WordSize: 8, MaxAlign: 8}
 
@@ -555,6 +578,7 @@ func callSSA(i *interpreter, caller *frame, callpos token.Pos, fn *ssa.Function,
 	}
 	defer func() {
 		if r := recover(); r != nil {
+			noteHostPanic(r)
 			panic(r) // keep CallStack as it was at the fault
 		}
 		CallStack = CallStack[:len(CallStack)-1]
